@@ -36,5 +36,6 @@ func FreezeClock()                         {}
 func FreezeTimers()                        {}
 func SetClockNs(ns int64)                  {}
 func SleptNs() int64                       { return 0 }
+func StepDeadline(n int, label string)     {}
 func TimeOf(ns int64) time.Time            { return time.Time{} }
 func ReplayMain(fns map[string]func())     {}
